@@ -955,6 +955,7 @@ class Evaluator:
                     break
             if v is None:
                 v = atom(("attr", field))
+        v = self._under_pc(v)
         if self.record_loads and not quiet:
             self.emit("load", node, attr=field, value=v)
         return v
